@@ -100,6 +100,9 @@ func newFakeServer(node *SimNode) *fakeServer {
 	pf := sv.FieldByName("peers")
 	setPrivate(pf, reflect.New(pf.Type().Elem()))
 	s.pool = blockchain.NewTxPool(nil, nil, nil)
+	// the chain object's own database handle: the API's block and
+	// transaction look-ups go through it
+	setPrivate(v.FieldByName("db"), reflect.ValueOf(node))
 	s.setTip(node.Tip())
 	return s
 }
@@ -326,6 +329,7 @@ func NewWorld(seed uint64, plan, sched *Tape) *World {
 	crand.Reader = w.Crypto
 	w.SetKnobs(Knobs{CoinbaseMaturity: 2, MinFrozen: 2, WarmUpHeight: 1 << 40, BindingLock: 3, MinStakingValue: 1000, GapLimit: 20, WriteBuffer: 4 << 20})
 	w.Node = NewSimNode(w.Params.GenesisBlock)
+	w.Node.Work = w.S.Work
 	w.Node.Gate = func(method string) {
 		g := w.S.Current()
 		if g != nil && g.nodeGates && g.Role != RoleClient {
@@ -412,6 +416,12 @@ func (inst *Instance) Call(role Role, name string, fn func()) *G {
 	return w.S.Go(role, inst, name, func() {
 		defer func() {
 			if r := recover(); r != nil {
+				if wb, ok := r.(workBudgetExceeded); ok {
+					w.S.mu.Lock()
+					w.S.Stalls = append(w.S.Stalls, fmt.Sprintf("%s %s: more than %d storage/node queries\n%s", inst.Name, name, wb.n-1, debug.Stack()))
+					w.S.mu.Unlock()
+					return
+				}
 				w.S.mu.Lock()
 				w.S.Panics = append(w.S.Panics, fmt.Sprintf("%s %s: %v\n%s", inst.Name, name, r, debug.Stack()))
 				w.S.mu.Unlock()
